@@ -143,15 +143,22 @@ def handleLinkF (toks : List String) : Option String := do
   let l ← parseLink toks; let v ← argF64s toks "v"
   some s!"ok link={tfs (v.map (Glm.linkFn l))} der={tfs (v.map (Glm.linkFnDeriv lb7 l))}"
 
-/-- `deflink power=..`: index of the link `TweedieRegressorValidParams::link()` selects when none was set -/
+/-- `deflink power=.. chosen=none|0|1|2`: index of the link `TweedieRegressorValidParams::link()` returns after
+`check()`, answered THROUGH `Glm.checkedLink` (= the power test of `check` + `Glm.selectLink`) -/
 def handleDefLink (toks : List String) : Option String := do
   let power ← argF64 toks "power"
-  -- `ParamGuard::check`: powers strictly between 0 and 1 are rejected before a link is selected
-  if 0 < power && power < 1 then some "err InvalidTweediePower" else
-  match Glm.defaultLink power with
-  | .identity => some "ok 0"
-  | .log => some "ok 1"
-  | .logit => some "ok 2"
+  let c ← arg toks "chosen"
+  let chosen : Option Glm.Link ← match c with
+    | "none" => some none
+    | "0" => some (some .identity)
+    | "1" => some (some .log)
+    | "2" => some (some .logit)
+    | _ => none
+  match Glm.checkedLink chosen power with
+  | none => some "err InvalidTweediePower"
+  | some .identity => some "ok 0"
+  | some .log => some "ok 1"
+  | some .logit => some "ok 2"
 
 def handleGCost (toks : List String) : Option String := do
   let l ← parseLink toks
